@@ -3,6 +3,7 @@ package harness
 import (
 	"bytes"
 	"fmt"
+	"sort"
 	"time"
 
 	simplefixgo "github.com/b2broker/simplefix-go"
@@ -242,7 +243,8 @@ func c19(w *World) {
 		}
 	}
 	// (a) stored before sent
-	for n, m := range wireBySeq {
+	for _, n := range sortedInts(wireBySeq) {
+		m := wireBySeq[n]
 		ev, ok := savedOK[n]
 		if !ok {
 			w.Violate("sent-without-save", m.Type, fmt.Sprintf("message 34=%d (type %s) is on the wire but was never saved successfully", n, m.Type))
@@ -274,12 +276,12 @@ func c19(w *World) {
 			w.Probe("blocked_send")
 		}
 	}
-	for n := range saveFailed {
+	for _, n := range sortedInts(saveFailed) {
 		if _, onWire := wireBySeq[n]; onWire && savedOK[n] == 0 {
 			w.Violate("blocked-send-transmitted", "library", fmt.Sprintf("message 34=%d was transmitted although its Save failed", n))
 		}
 	}
-	for n := range refusedSeq {
+	for _, n := range sortedInts(refusedSeq) {
 		if m, onWire := wireBySeq[n]; onWire {
 			w.Violate("blocked-send-transmitted", "refused/"+m.Type, fmt.Sprintf("message 34=%d (type %s) was transmitted although an outgoing handler refused it", n, m.Type))
 		}
@@ -291,7 +293,8 @@ func c19(w *World) {
 			perMsg[c.seq] = append(perMsg[c.seq], c)
 		}
 	}
-	for n, calls := range perMsg {
+	for _, n := range sortedInts(perMsg) {
+		calls := perMsg[n]
 		sawType := false
 		lastAll, lastTyp := -1, -1
 		for i, c := range calls {
@@ -415,4 +418,13 @@ func c19(w *World) {
 		w.Probe("outgoing_handlers_ran")
 	}
 	sc.Teardown()
+}
+
+func sortedInts[V any](m map[int]V) []int {
+	ks := make([]int, 0, len(m))
+	for k := range m {
+		ks = append(ks, k)
+	}
+	sort.Ints(ks)
+	return ks
 }
